@@ -311,3 +311,41 @@ package processor
 //@   props C05
 //@   pure
 //@ end
+
+// C05/C06 (the answer does not depend on the degree of query parallelism): the
+// planner may replicate the front of a pipeline into parallel chains only up to
+// the FIRST bottleneck command, and only if some command up to and including it
+// ignores its input order and none needs its input in order or generates data.
+// A bottleneck that does NOT ignore the order (the two-pass commands: `bin`
+// without span=, `fillnull` without fields) therefore stops the scan with "no
+// parallelism": each copy of it would learn its first-pass state from a
+// fragment of the stream.
+//@ func (*DataProcessor).DoesInputOrderMatter
+//@   props C05 C06
+//@   pure
+//@   ensures result == dp.inputOrderMatters
+//@ end
+//@ func (*DataProcessor).IgnoresInputOrder
+//@   props C05 C06
+//@   pure
+//@   ensures result == dp.ignoresInputOrder
+//@ end
+//@ func (*DataProcessor).IsBottleneckCmd
+//@   props C05 C06
+//@   pure
+//@   ensures result == dp.isBottleneckCmd
+//@ end
+//@ func (*DataProcessor).GeneratesData
+//@   props C05 C06
+//@   pure
+//@ end
+//@ func CanParallelSearch
+//@   props C05 C06
+//@   requires forall(k, 0, len(dataProcessors), dataProcessors[k] != nil)
+//@   loop 1:
+//@     invariant [no-bottleneck-among-the-scanned] forall(k, 0, rangeindex+1, !dataProcessors[k].isBottleneckCmd && !dataProcessors[k].inputOrderMatters)
+//@     invariant [can-split-only-if-some-scanned-command-ignores-order] implies(canSplit, exists(k, 0, rangeindex+1, dataProcessors[k].ignoresInputOrder))
+//@   ensures [split-only-at-the-first-bottleneck] implies(result0, 0 <= result1 && result1 < len(dataProcessors) && dataProcessors[result1].isBottleneckCmd && forall(k, 0, result1, !dataProcessors[k].isBottleneckCmd))
+//@   ensures [split-only-if-nothing-up-to-it-needs-order] implies(result0, forall(k, 0, result1+1, !dataProcessors[k].inputOrderMatters))
+//@   ensures [split-only-if-something-up-to-it-ignores-order] implies(result0, exists(k, 0, result1+1, dataProcessors[k].ignoresInputOrder))
+//@ end
